@@ -18,7 +18,10 @@ EXPLANATION = (
     "every cone's step_length is bounded by its alpha_max argument; (R3) the tau/kappa ratio tests have the same "
     "shape; (R4) add_step moves all five components with the same alpha; (R5) iterate 0: the shift into the cone "
     "interior cancels a negative margin first and adds target >= 1 afterwards, as two separate shifts (the only "
-    "order that is sign-exact in floating point), s in the primal and z in the dual cone.")
+    "order that is sign-exact in floating point), s in the primal and z in the dual cone; (R6) the second-order cone "
+    "routine applies the scalar-part cap before every return; (R7) every solve starts from scratch (C05.R6 re-run): reset, "
+    "default_start, complete identity scaling / unit initialisation - so the k-th iterate does not depend on what the same "
+    "solver object did before.")
 ASSUMPTIONS = [
     'rustc MIR construction and trait resolution are correct',
     '0 <= linesearch_backtrack_step <= 1 and 0 < max_step_fraction <= 1 (settings are not validated by the crate)',
@@ -149,6 +152,10 @@ def run(ctx, rep, tier):
         add_step(rep, F, tag)
         steplen.interior_shift(rep, F, tag, 'C07.R5')
         steplen.soc_scalar_cap(rep, F, tag, 'C07.R6')
+    # a run limited to max_iter = k is a prefix of a longer run also on a re-used solver object: every solve starts from scratch
+    from . import c05, c04
+    for cfg in CONFIGS:
+        c05.fresh_start(c04._Ren(rep, 'C05.R6', 'C07.R7'), ctx.facts(cfg), ctx.eff(cfg), ctx.cg(cfg), '' if cfg == 'default' else '[%s]' % cfg)
     from . import units_rules
     R = rep.rule('C07.R4', 'add_step moves x, s, z, tau, kappa with the same alpha')
     R.guard(lambda: units_rules.add_step_units(R, ctx, 'default', ''))
